@@ -316,7 +316,7 @@ type Desc struct {
 	CC     int     `json:"cc,omitempty"`
 	// hist
 	CD      int    `json:"cd,omitempty"`
-	Variant string `json:"variant,omitempty"` // "gR" | "discard-gR" | "discard-f"
+	Variant string `json:"variant,omitempty"` // "gR" | "discard-gR" | "discard-f" | "forget-gR"
 }
 
 type wire struct {
@@ -777,6 +777,10 @@ func outRows(d Desc) []int64 {
 //	gR          R := f();               r2 := g(R)   (reference: nothing is re-run)
 //	discard-gR  R := f(); R.Discard();  r2 := g(R)   (R's tasks are lost and run again)
 //	discard-f   R := f(); R.Discard();  r2 := f()    (a new invocation of f)
+//	forget-gR   R := f(); the driver marks R's tasks lost although the executor
+//	            still holds their output; r2 := g(R).  The local executor runs
+//	            them again; the (single) bigmachine worker still holds them as
+//	            done and answers the second Worker.Run without executing.
 //
 // and reports the counters of r2. They must be the increments of the tasks
 // r2 is made of, each task once.
@@ -818,7 +822,11 @@ func runHist(d Desc) (term string, observed string) {
 			return
 		}
 		_ = r1.Scope() // reading the first result's counters must not matter
-		if d.Variant != "gR" {
+		switch d.Variant {
+		case "gR":
+		case "forget-gR":
+			exec.VerifC20ForgetTasks(r1)
+		default:
 			r1.Discard(ctx)
 		}
 		e2e.mu.Lock()
@@ -853,6 +861,24 @@ func runHist(d Desc) (term string, observed string) {
 	e2e.mu.Lock()
 	var groups []string
 	reruns := 0
+	// forget-gR on bigmachine: a task the worker still held is not executed again
+	var resub []string
+	answered := 0
+	for _, s := range e2e.order {
+		l1, l2 := sortedIncs(e2e.log[s], 1), sortedIncs(e2e.log[s], 2)
+		switch {
+		case len(l1) > 0 && len(l2) > 0:
+			resub = nil // executed twice after all: described as a history of runs below
+		case len(l1) > 0:
+			resub = append(resub, vf.Tuple(incsTerm(l1), vf.Nat(1)))
+			answered++
+		case len(l2) > 0:
+			resub = append(resub, vf.Tuple(incsTerm(l2), vf.Nat(0)))
+		}
+		if len(l1) > 0 && len(l2) > 0 {
+			answered = -1 << 30
+		}
+	}
 	for _, s := range e2e.order {
 		var runs []string
 		for ph := 1; ph <= 2; ph++ {
@@ -882,6 +908,11 @@ func runHist(d Desc) (term string, observed string) {
 	observed = "ok"
 	if oc.err != "" {
 		observed = oc.err
+	}
+	if d.Variant == "forget-gR" && d.Exec == "bigmachine" && answered >= 0 {
+		sort.Strings(resub)
+		term = vf.App("CResub", vf.Nat(reg), vf.List(resub), incsTerm(exp), vf.ZList(oc.vals))
+		return term, fmt.Sprintf("%s %d tasks %d answered without re-run", observed, len(resub), answered)
 	}
 	term = vf.App("CHist", vf.Bool(d.Exec == "bigmachine"), vf.Nat(reg), vf.List(groups), incsTerm(exp), vf.ZList(oc.vals))
 	return term, fmt.Sprintf("%s %d tasks %d re-run", observed, len(groups), reruns)
@@ -1003,7 +1034,7 @@ func main() {
 		Rule: "random op sequences (Incr/Value/Merge/Reset/Reset(nil)/gob encode/gob decode, direct and wrapped in a reply struct, " +
 			"hand-made payloads, near-overflow increments, a counter registered in mid-sequence in a few cases) over 2-4 scopes and a " +
 			"registry that grows during the run, plus slice programs with counting user functions on the local and bigmachine(testsystem) " +
-			"executors, and histories in which a result is discarded and its tasks run again (g(R) after R.Discard, f again after R.Discard, " +
+			"executors, and histories in which a result is discarded and its tasks run again (g(R) after R.Discard, f again after R.Discard, g(R) after the driver marked R's tasks lost while the one bigmachine worker still holds them, " +
 			"g(R) without discard as reference); non-trivial = an ops case with at least one Incr and one Merge/Reset/decode, or an end-to-end case with at least " +
 			"two counting tasks; distinct by case text",
 		Extra: map[string]interface{}{}}
@@ -1070,19 +1101,23 @@ func main() {
 		if reg < 5 {
 			reg = 5
 		}
-		nhist := 27
+		nhist := 36
 		if opts.Tier == "thorough" {
-			nhist = 270
+			nhist = 360
 		}
 		nhist *= opts.Scale
-		variants := []string{"discard-gR", "gR", "discard-f"}
+		variants := []string{"discard-gR", "gR", "discard-f", "forget-gR"}
 		for i := 0; i < nhist; i++ {
 			ex := "local"
 			if i%3 == 2 {
 				ex = "bigmachine"
 			}
-			d := genE2E(root.Split(), reg, ex, histProgs[(i/9)%len(histProgs)])
+			d := genE2E(root.Split(), reg, ex, histProgs[(i/12)%len(histProgs)])
 			d.Kind, d.Variant = "hist", variants[(i/3)%len(variants)]
+			if d.Variant == "forget-gR" && i%3 == 1 {
+				ex = "bigmachine" // the resubmission to the same worker is the point here
+				d.Exec = ex
+			}
 			// a fourth counter for stage2
 			for d.CD = 1; d.CD == d.CA || d.CD == d.CB || d.CD == d.CC; d.CD++ {
 			}
@@ -1117,7 +1152,7 @@ func main() {
 			}
 			if !okProg || (d.Exec != "local" && d.Exec != "bigmachine") || d.NShard < 1 ||
 				d.CA < 1 || d.CB < 1 || d.CC < 1 || d.CD < 1 ||
-				(d.Variant != "gR" && d.Variant != "discard-gR" && d.Variant != "discard-f") {
+				(d.Variant != "gR" && d.Variant != "discard-gR" && d.Variant != "discard-f" && d.Variant != "forget-gR") {
 				continue
 			}
 			term, observed := runHist(d)
@@ -1126,6 +1161,9 @@ func main() {
 				nontriv = vf.Hash(term)
 			}
 			sig := "metrics-hist-" + d.Exec
+			if d.Exec == "bigmachine" && d.Variant == "forget-gR" {
+				sig = "metrics-resubmit-bigmachine"
+			}
 			if d.Exec == "bigmachine" && d.Variant == "discard-gR" {
 				// (*worker).Run does not reset the worker-side task scope before a re-run
 				sig = "metrics-bigmachine-recompute-overcounts"
